@@ -259,7 +259,7 @@ pub fn prop() -> Prop {
         ],
         direct: Some(direct),
         selftest: Some(crate::rfc::selftest),
-        fuzz: Some(FuzzSpec { target: "evaldiff", runs: 10000, max_len: 400, tag: "C03", seed_corpus: None }),
+        fuzz: Some(FuzzSpec { target: "evaldiff", runs: 10000, max_len: 1000, tag: "C03", seed_corpus: None }),
         insertion_order_stage: true,
     }
 }
